@@ -154,6 +154,14 @@ func (g *Gen) randomIndexes(name string, cols []string, needKey bool, self *Tabl
 		}
 		if ix, ok := g.fkIndex(cols, selfT); ok && (!have(ix.Cols) || g.chance(5)) {
 			idx = append(idx, ix)
+			if !g.AvoidKnownC21 && g.chance(25) {
+				// a second foreign key from other columns of this table to the same target key
+				if c := g.subsetCols(cols, len(ix.Cols)); len(c) == len(ix.Cols) && !have(c) {
+					ix2 := ix
+					ix2.Cols = c
+					idx = append(idx, ix2)
+				}
+			}
 		}
 	}
 	return idx
